@@ -44,13 +44,19 @@ class APLItem:
             self.prefix = dns.rdata.Rdata._as_int(prefix, 0, 128)
         else:
             self.address = dns.rdata.Rdata._as_bytes(address, max_length=127)
+            # The address of an unknown family is kept as hex text.
+            binascii.unhexlify(self.address)
             self.prefix = dns.rdata.Rdata._as_uint8(prefix)
 
     def __str__(self):
-        if self.negation:
-            return f"!{self.family}:{self.address}/{self.prefix}"
+        if self.family in (1, 2):
+            address = self.address
         else:
-            return f"{self.family}:{self.address}/{self.prefix}"
+            address = self.address.decode()
+        if self.negation:
+            return f"!{self.family}:{address}/{self.prefix}"
+        else:
+            return f"{self.family}:{address}/{self.prefix}"
 
     def to_wire(self, file):
         if self.family == 1:
@@ -111,6 +117,8 @@ class APL(dns.rdata.Rdata):
             family = int(family)
             address, prefix = rest.split("/", 1)
             prefix = int(prefix)
+            if family not in (1, 2):
+                address = address.encode()
             item = APLItem(family, negation, address, prefix)
             items.append(item)
 
